@@ -45,6 +45,20 @@
                              the list (FALSE: once a check_source_name exception was met, the later ones are
                              matched against the source name too) -- ExceptionListExempts.
 
+     M_FirstRuleWins         the loop over the antispam rules ends at the first rule whose condition matches
+                             (FALSE: a later matching rule overrides an earlier one) -- RuleListGoverns.
+     M_SourceFallsBackToInputId  with source_name_meta_field set but absent from a record's meta, Pipeline.In
+                             charges the record to the input's own source id (FALSE: to the empty key, shared by
+                             every such source) -- SourceKeyAgrees / NoSharedCounter.
+
+   PART "rlist":  the rule loop of IsSpam over a LIST of 1..3 rules (condition matches the record or not,
+   threshold -1 / 0 / 1..3) and a global threshold: the governing threshold is that of the first matching
+   rule, else the global one.
+
+   PART "skey":  the choice of the antispam source in Pipeline.In over short interleavings of records of two
+   inputs with / without the meta key: the counter a record is charged to is the meta value if the field is
+   configured and present, else the input's source id.
+
    PART "cri":  the CRI path of Pipeline.In with the error variable threaded through its steps, over
    well-formed lines (time zone Z / numeric offset, stdout / stderr, full / partial) x antispam
    {disabled, threshold 0 + rule, large threshold}: nothing is banned, so every such record is admitted.
@@ -74,6 +88,8 @@ CONSTANTS
   T2s, Us, Modes,
   D_ResidualAfterUnban, D_ExceptionsIgnoredWithRules,
   M_CapPerSource, M_InvertAfterShortcut, M_LowerCopies, M_ErrClearedBeforeDecode, M_SubjectPerException,
+  M_FirstRuleWins, M_SourceFallsBackToInputId,
+  SKeyMaxLen,       \* skey: records per interleaving
   MSyms,            \* match: symbols of data and values (1 = a, 2 = b, 3 = A, the upper case of 1)
   MDataMax, MValMax,\* match: length bounds of data / values
   MCi,              \* match: candidate case_insensitive flags
@@ -84,6 +100,8 @@ B2I(b) == IF b THEN 1 ELSE 0
 Srcs == 1..NSrc
 
 VARIABLES part,
+          rl,                       \* rule-list case
+          sk,                       \* source-key case
           cr,                       \* cri case
           xl,                       \* exception-list case
           mt,                       \* match case
@@ -95,7 +113,7 @@ VARIABLES part,
           win, silent, pb,          \* declarative: arrivals since previous maintenance, silent rounds, may-be-banned
           resid                     \* explanation of D_ResidualAfterUnban: the counter the last maintenance left
 
-vars == <<part, cr, xl, mt, sz, sc, known, cnt, ts, thrOf, now, hist, win, silent, pb, resid>>
+vars == <<part, rl, sk, cr, xl, mt, sz, sc, known, cnt, ts, thrOf, now, hist, win, silent, pb, resid>>
 
 -----------------------------------------------------------------------------
 (* ============================ PART size ================================= *)
@@ -166,6 +184,67 @@ SizeExport == [part |-> "size", L |-> sz.L, nl |-> sz.nl, M |-> sz.M, cut |-> sz
                mret |-> In(sz).ret]
 
 NoSz == [L |-> 0, nl |-> FALSE, M |-> 0, cut |-> FALSE, mark |-> FALSE, undec |-> FALSE, committed |-> FALSE]
+
+-----------------------------------------------------------------------------
+(* ============================ PART rlist ================================ *)
+
+\* thresholds are coded 0..4 = -1 (unlimited), 0 (block), 1, 2, 3  (TLC cfg files have no negative literals; here none are needed)
+RThr == {-1, 0, 1, 2, 3}
+RRule == [m : BOOLEAN, thr : RThr]
+RLists == UNION {[1..n -> RRule] : n \in 1..3}
+RGlobals == {-1, 0, 2}
+NoRl == [g |-> 0, rules |-> <<>>]
+
+(* --- transcription: the rule loop of IsSpam (rules != nil); result = what the head of IsSpam decides --- *)
+RECURSIVE RLoop(_, _, _)
+RLoop(rules, i, threshold) ==
+  IF i > Len(rules) THEN [ret |-> "thr", thr |-> threshold]
+  ELSE IF ~rules[i].m THEN RLoop(rules, i + 1, threshold)             \* if !rule.DoIfChecker.Check(data) { continue }
+  ELSE IF rules[i].thr = -1 THEN [ret |-> "pass", thr |-> -1]         \* case thresholdUnlimited: return false
+  ELSE IF rules[i].thr = 0 THEN [ret |-> "block", thr |-> 0]          \* case thresholdBlocked: return true
+  ELSE IF M_FirstRuleWins THEN [ret |-> "thr", thr |-> rules[i].thr]  \* threshold = rule.Threshold; break
+  ELSE RLoop(rules, i + 1, rules[i].thr)                              \* (mutant: no break)
+\* the threshold the record is judged by: -1 never refused, 0 always refused, n >= 1 counted
+RGovModel(c) == LET h == RLoop(c.rules, 1, c.g) IN h.thr
+
+\* declarative: the first matching rule governs, else the global threshold
+RGov(c) == IF \E i \in DOMAIN c.rules : c.rules[i].m
+             THEN c.rules[CHOOSE i \in DOMAIN c.rules : c.rules[i].m /\ \A j \in 1..(i - 1) : ~c.rules[j].m].thr
+             ELSE c.g
+RuleListGoverns == part = "rlist" => RGovModel(rl) = RGov(rl)
+RExport == [part |-> "rlist", g |-> rl.g, rules |-> [i \in DOMAIN rl.rules |-> <<B2I(rl.rules[i].m), rl.rules[i].thr>>],
+            gov |-> RGov(rl), mgov |-> RGovModel(rl)]
+
+-----------------------------------------------------------------------------
+(* ============================ PART skey ================================= *)
+
+\* one record: which input it comes from and what its meta says under the configured key ("none" = key absent)
+SRec == [src : {1, 2}, meta : {"none", "x", "y"}]
+SKeyCases == {[field |-> f, recs |-> rs] : f \in BOOLEAN, rs \in UNION {[1..n -> SRec] : n \in 1..SKeyMaxLen}}
+NoSk == [field |-> FALSE, recs |-> <<>>]
+SKeyThreshold == 2
+
+(* --- transcription: the source selection of Pipeline.In --- *)
+SKeyModel(field, r) ==
+  IF ~field THEN <<"input", r.src>>                               \* SourceNameMetaField == "": the input's source id
+  ELSE IF r.meta # "none" THEN <<"meta", r.meta>>                 \* val, ok := meta[field]; ok: id = name = val, isNewSource = false
+  ELSE IF M_SourceFallsBackToInputId THEN <<"input", r.src>>      \* !ok: error logged, the input's source id
+  ELSE <<"meta", "">>                                             \* (mutant: the empty value)
+\* declarative
+SKeyDecl(field, r) == IF field /\ r.meta # "none" THEN <<"meta", r.meta>> ELSE <<"input", r.src>>
+
+SourceKeyAgrees == part = "skey" => \A i \in DOMAIN sk.recs : SKeyModel(sk.field, sk.recs[i]) = SKeyDecl(sk.field, sk.recs[i])
+\* distinct inputs without the meta key never share a counter
+NoSharedCounter ==
+  part = "skey" => \A i, j \in DOMAIN sk.recs :
+     sk.recs[i].src # sk.recs[j].src /\ sk.recs[i].meta = "none" /\ sk.recs[j].meta = "none"
+        => SKeyModel(sk.field, sk.recs[i]) # SKeyModel(sk.field, sk.recs[j])
+\* how many records so far (this one included) were charged to the same counter, declaratively and in the model
+SCount(keyOf(_, _), i) == Cardinality({j \in 1..i : keyOf(sk.field, sk.recs[j]) = keyOf(sk.field, sk.recs[i])})
+SExport == [part |-> "skey", field |-> sk.field, thr |-> SKeyThreshold,
+            recs |-> [i \in DOMAIN sk.recs |->
+                        <<sk.recs[i].src, CASE sk.recs[i].meta = "none" -> 0 [] sk.recs[i].meta = "x" -> 1 [] sk.recs[i].meta = "y" -> 2,
+                          SCount(SKeyDecl, i), B2I(SCount(SKeyDecl, i) < SKeyThreshold), SCount(SKeyModel, i)>>]]
 
 -----------------------------------------------------------------------------
 (* ============================ PART cri ================================== *)
@@ -403,7 +482,7 @@ Arrive(s, kind, dt) ==
         /\ win' = win1 /\ pb' = pb1 /\ silent' = [silent EXCEPT ![s] = 0]
         /\ resid' = resid1
         /\ hist' = Append(hist, step)
-  /\ UNCHANGED <<part, cr, xl, mt, sz, sc>>
+  /\ UNCHANGED <<part, rl, sk, cr, xl, mt, sz, sc>>
 
 Maintain ==
   /\ part = "spam" /\ Len(hist) < MaxSteps
@@ -424,16 +503,18 @@ Maintain ==
         /\ win' = Zero /\ silent' = silent1 /\ pb' = pb1
         /\ resid' = cnt1
         /\ hist' = Append(hist, step)
-  /\ UNCHANGED <<part, cr, xl, mt, sz, sc, now>>
+  /\ UNCHANGED <<part, rl, sk, cr, xl, mt, sz, sc, now>>
 
 -----------------------------------------------------------------------------
 Init ==
   /\ part \in Parts
+  /\ IF part = "rlist" THEN \E g \in RGlobals, rs \in RLists : rl = [g |-> g, rules |-> rs] ELSE rl = NoRl
+  /\ IF part = "skey" THEN sk \in SKeyCases ELSE sk = NoSk
   /\ IF part = "cri" THEN cr \in CriCases ELSE cr = NoCr
   /\ IF part = "xlist" THEN xl \in XLists ELSE xl = NoXl
   /\ IF part = "size" THEN sz \in SizeCasesBounded /\ sc = NoSc /\ mt = NoMt
      ELSE IF part = "match" THEN MatchInit /\ sz = NoSz /\ sc = NoSc
-     ELSE IF part \in {"cri", "xlist"} THEN sz = NoSz /\ sc = NoSc /\ mt = NoMt
+     ELSE IF part \in {"cri", "xlist", "rlist", "skey"} THEN sz = NoSz /\ sc = NoSc /\ mt = NoMt
      ELSE /\ sz = NoSz /\ mt = NoMt
           /\ \E T \in Ts \cup (IF WithDisabled THEN {-1} ELSE {}), U \in Us, mode \in Modes :
                \E T2 \in (IF mode = "rules" /\ NSrc >= 2 THEN T2s ELSE {0}) :
@@ -460,7 +541,7 @@ PrevMb(s) == IF Len(hist) = 1 THEN 0 ELSE hist[Len(hist) - 1].mb[s]
 Flip(s) == Last.mb[s] = 1 /\ PrevMb(s) = 0          \* banned(s) became true in the last step
 
 TypeOK ==
-  /\ part \in {"size", "spam", "match", "cri", "xlist"}
+  /\ part \in {"size", "spam", "match", "cri", "xlist", "rlist", "skey"}
   /\ part = "spam" => /\ \A s \in Srcs : cnt[s] >= 0 /\ (s \notin known => cnt[s] = 0)
                       /\ \A s \in known : cnt[s] <= sc.U * thrOf[s] + MaxSteps
 
@@ -518,6 +599,8 @@ Export ==
   ELSE IF part = "match" THEN PrintT(ToJson(MatchExport))
   ELSE IF part = "cri" THEN PrintT(ToJson(CriExport))
   ELSE IF part = "xlist" THEN PrintT(ToJson(XExport))
+  ELSE IF part = "rlist" THEN PrintT(ToJson(RExport))
+  ELSE IF part = "skey" THEN PrintT(ToJson(SExport))
   ELSE IF Len(hist) = MaxSteps THEN PrintT(ToJson(SpamExport))
   ELSE TRUE
 
